@@ -651,6 +651,10 @@ impl Task {
                             || iter.state().is_abort()
                     }) {
                         self.set_state(TaskState::Skipped);
+                        // no task event follows this write: keep the stored row current
+                        if let Some(me) = self.proc.task(&self.id) {
+                            let _ = self.runtime.cache().upsert(&me);
+                        }
                     }
                 }
 
